@@ -1988,9 +1988,14 @@ class WassersteinVectorizer(BaseEstimator, TransformerMixin):
                 np.array(X.sum(axis=1)), self.heuristic_normalization_power
             )
 
-            return (basis_transformed_matrix @ self.components_.T) / np.sqrt(
-                self.singular_values_
-            )
+            # a component whose singular value is zero up to rounding carries nothing (fit_transform gives ~0 there):
+            # dividing by its square root would turn 0 / 0 into NaN or blow rounding noise up
+            scaling = np.sqrt(self.singular_values_)
+            negligible = np.sqrt(
+                np.finfo(np.float64).eps * max(self.components_.shape)
+            ) * np.max(scaling)
+            safe_scaling = np.where(scaling > negligible, scaling, 1.0)
+            return (basis_transformed_matrix @ self.components_.T) / safe_scaling
         else:
             # Preprocessing necessary for LOT_exact and LOT_sinkhorm
             check_is_fitted(
@@ -2734,9 +2739,14 @@ class ApproximateWassersteinVectorizer(BaseEstimator, TransformerMixin):
             np.array(X.sum(axis=1)), self.normalization_power
         )
 
-        return (basis_transformed_matrix @ self.components_.T) / np.sqrt(
-            self.singular_values_
-        )
+        # a component whose singular value is zero up to rounding carries nothing (fit_transform gives ~0 there):
+        # dividing by its square root would turn 0 / 0 into NaN or blow rounding noise up
+        scaling = np.sqrt(self.singular_values_)
+        negligible = np.sqrt(
+            np.finfo(np.float64).eps * max(self.components_.shape)
+        ) * np.max(scaling)
+        safe_scaling = np.where(scaling > negligible, scaling, 1.0)
+        return (basis_transformed_matrix @ self.components_.T) / safe_scaling
 
 
 class WassersteinVectorizerOld(BaseEstimator, TransformerMixin):
